@@ -22,9 +22,9 @@ ASSUMPTIONS = [
     "'default.replace(...) as it is'), which for ignoretz=True and for an unknown abbreviation contradicts the property text: known "
     "finding D-C15-aware-default-kept.  default=datetime.date(...) is outside the documented type ('the default datetime object'): "
     "observed each run (TypeError when the text names a time field, a date object otherwise), reported in the histograms, not judged",
-    "a tzinfos value that is a MALFORMED TZ string is not 'a TZ string' in the sense of this property: such calls are generated, "
-    "must raise exactly what the Lean model of tz.tzstr raises (ValueError), and are counted (tzinfos_malformed_tzstring_calls); "
-    "that the exception is not a ParserError is C14's known finding D-C14-tzinfos-bad-tzstring",
+    "a tzinfos value that is a MALFORMED TZ string (or a callable raising ValueError) is not 'a TZ string' in the sense of this "
+    "property: such calls are generated, must raise ParserError exactly when the Lean model (C08's tz.tzstr model inside the parser "
+    "model) does, and are counted (tzinfos_malformed_value_calls)",
     "a failing oracle case is KNOWN only if the implementation's answer equals the Lean model's answer on it and the observed "
     "result is exactly the listed symptom; anything else inside a known class is a VIOLATION",
 ]
@@ -268,12 +268,16 @@ def oracle(ctx):
                     ctx.count("expected_" + exp.split()[1])
                 else:
                     ok = ans.startswith("ok ") and raw.replace(tzinfo=None, fold=0) == exp
-                if not ok and ans == "err ValueError" and L.model_answers(ctx, [c])[0] == ans:
-                    # a MALFORMED TZ string among the tzinfos values (the Lean model of tz.tzstr rejects it too): not "a TZ
-                    # string" in the sense of this property; the escaping ValueError is C14's finding D-C14-tzinfos-bad-tzstring
-                    ctx.count("tzinfos_malformed_tzstring_calls")
+                if not ok and ans == "err ParserError" and isinstance(exp, datetime.datetime) and c.tz.kind != "none" \
+                        and not c.ignoretz and L.model_answers(ctx, [c])[0] == ans:
+                    # the TEXT is fine; a tzinfos value is a MALFORMED TZ string / the callable raised ValueError (the Lean model of
+                    # tz.tzstr rejects it too): ParserError is the documented outcome ("if the provided tzinfo is not in a valid format")
+                    ctx.count("tzinfos_malformed_value_calls")
                     continue
-                if not ok and not (ans == "err OverflowError" and isinstance(exp, datetime.datetime)):
+                # an OverflowError where the fill-in spec has a datetime is excused only when the Lean model raises it too (the
+                # zone object's own overflow next to 0001-01-01 / 9999-12-31, tzoffset beyond timedelta's range)
+                if not ok and not (ans == "err OverflowError" and isinstance(exp, datetime.datetime)
+                                   and L.model_answers(ctx, [c])[0] == ans):
                     ctx.violation("default fill-in / clip / weekday shift: expected %s" % (exp if isinstance(exp, str) else exp.isoformat()),
                                   c.describe(), {"impl": ans, "fields": fields, "weekday": wd})
                     continue
@@ -351,7 +355,13 @@ def oracle(ctx):
                         elif not (a2.startswith("ok ") and r2.tzinfo is None and r2 == raw.replace(tzinfo=None, fold=0)):
                             ctx.violation("ignoretz must return the same wall time without a zone", c.describe(), {"impl": ans, "ignoretz": a2})
                     elif ans == "err ParserError" and a2 != ans:
-                        ctx.violation("ignoretz changed a failing parse", c.describe(), {"impl": ans, "ignoretz": a2})
+                        # unless the failure came from the tzinfos VALUE (malformed TZ string / raising callable), which
+                        # ignoretz never consults — the model must say exactly the same in both calls
+                        mm = L.model_answers(ctx, [c, c2]) if c.tz.kind != "none" else None
+                        if mm is not None and mm[0] == ans and mm[1] == a2:
+                            ctx.count("tzinfos_malformed_value_calls")
+                        else:
+                            ctx.violation("ignoretz changed a failing parse", c.describe(), {"impl": ans, "ignoretz": a2})
             # ---- (f) fuzzy relations
             for _ in range(ctx.budget(1500, 15000)):
                 text, fields, wd = partial(rng)
